@@ -560,7 +560,13 @@ static void dump_eval(const Case &c, unsigned mask, Result &R, Acc &A) {
   Dict used1, used2, dict2, dict3;
   int stage = 0;
   bool missing = false;
+  // the texts are first parsed from memory: an abort inside the ParameterFile
+  // constructor would leak its open file stream
   const bool ok = c20::guarded([&] {
+    {
+      std::istringstream pre(text);
+      YAMLDictionary predict(pre);
+    }
     write_file(f1, text);
     ParameterFile pf1(f1);
     stage = 1;
@@ -574,6 +580,10 @@ static void dump_eval(const Case &c, unsigned mask, Result &R, Acc &A) {
     used1 = pf1._yaml_dictionary._used_values;
     write_file(f2, dump1);
     stage = 3;
+    {
+      std::istringstream pre(dump1);
+      YAMLDictionary predict(pre);
+    }
     ParameterFile pf2(f2);
     dict2 = pf2._yaml_dictionary._dictionary;
     for (size_t i = 0; i < c.keys.size(); ++i)
